@@ -364,6 +364,24 @@ def _enumerate_faults(kind, mode, variant, rng, res: CaseResult, other_tmp=None)
                 stray = [p_ for p_ in (d / refscheme.rel_dir(t['slug'])).glob('*_tmp*')] if (d / refscheme.rel_dir(t['slug'])).exists() else []
                 if kind in ('dir', 'empty_dir') and retry['ok'] and stray:
                     res.violate(f'{what}: work directories left behind after the successful retry: {[s_.name for s_ in stray]}', witness=witness, facts={'tag': 'stray_workdir'})
+        # ---- (f) a resumable computation whose run returns without finishing: nothing is visible, not even to the chain that ran it ---------------
+        if kind == 'continues' and not forced:
+            d = fresh_dir('nofinish')
+            steps = [{'op': 'build', 'chain': 'c', 'root': root}, {'op': 'arm_fault', 'chain': 'c', 'task': slug, 'kind': 'no_finish'}, {'op': 'value', 'chain': 'c', 'task': slug},
+                     {'op': 'inspect', 'chain': 'c', 'what': 'has_data'}, {'op': 'inspect', 'chain': 'c', 'what': 'tasks_df'}, {'op': 'disarm', 'chain': 'c'}]
+            r = lab.run(steps, data_dir=d)
+            if session_problem(r):
+                res.inconclusive.append(session_problem(r))
+            else:
+                res.count('unfinished_resumable_runs')
+                what = f'{kind} ({mode}): run returned without calling finished()'
+                witness = dict(base_witness, fault=['no_finish'])
+                hd = r['steps'][3]
+                if hd['ok'] and hd['has_data'].get(slug):
+                    res.violate(f'{what}: the chain that ran it reports has_data although the result was never finished (no result directory exists)', witness=witness,
+                                facts={'tag': 'visible_unfinished'})
+                else:
+                    check_after(lab, ref, root, slug, res, witness, what + ' (later chain)', d)
         # ---- (e) the result holds text that the process's locale encoding cannot express (interpreter started with the C locale) ------------------
         if kind in ('json_dict', 'json_list', 'str', 'generator'):
             d = fresh_dir('locale')
